@@ -157,6 +157,10 @@ impl Lexicon {
                         }
                         _ => {
                             features_len += nin;
+                            // At the end of the file an empty last cell has no terminator.
+                            if record_end && nin == 0 {
+                                features_len += 1;
+                            }
                         }
                     }
                     record_end_pos += nin;
@@ -175,10 +179,7 @@ impl Lexicon {
                     );
                     return Err(VibratoError::invalid_format(name, msg));
                 }
-                // features_len counts the terminator of the last field, except when the file
-                // ends right after the comma following the cost (an empty feature string).
-                let feature =
-                    std::str::from_utf8(&features_bytes[..features_len.saturating_sub(1)])?;
+                let feature = std::str::from_utf8(&features_bytes[..features_len - 1])?;
                 if surface.is_empty() {
                     eprintln!(
                         "Skipped an empty surface, {:?}",
